@@ -145,6 +145,9 @@ type Spec struct {
 
 func (a *App) Name() string { return joinParts(a.Parts) }
 
+// JoinParts joins application name parts the way the model keys applications.
+func JoinParts(p []string) string { return joinParts(p) }
+
 func joinParts(p []string) string {
 	s := ""
 	for i, x := range p {
